@@ -26,7 +26,7 @@ pub fn bdd_cfg(u: &mut Unstructured, max_n0: u8) -> Result<BddCfg> {
 }
 
 pub fn bop(u: &mut Unstructured) -> Result<BOp> {
-    Ok(match u.arbitrary::<u8>()? % 17 {
+    Ok(match u.arbitrary::<u8>()? % 18 {
         0 | 1 => BOp::Lit(u.arbitrary()?, u.arbitrary()?),
         2 => BOp::Const(u.arbitrary()?),
         3 => BOp::Not(u.arbitrary()?),
@@ -58,6 +58,19 @@ pub fn bop(u: &mut Unstructured) -> Result<BOp> {
             } else {
                 BOp::OrLst(l)
             }
+        }
+        16 => {
+            let nc = 1 + u.arbitrary::<u8>()? % 4;
+            let mut cl = Vec::new();
+            for _ in 0..nc {
+                let nl = 1 + u.arbitrary::<u8>()? % 3;
+                let mut c = Vec::new();
+                for _ in 0..nl {
+                    c.push((u.arbitrary()?, u.arbitrary()?));
+                }
+                cl.push(c);
+            }
+            BOp::Cnf(cl)
         }
         _ => BOp::NewVar(u.arbitrary()?),
     })
